@@ -1202,6 +1202,59 @@ void run_c19(Judge& j, uint64_t n, int64_t only = -1) {
     }
 }
 
+
+// ------------------------------------------------------------------------------------------------ C20 in situ: the lookups at their call sites
+// Every byte value as the reason code of a Server DISCONNECT, of the CONNACK and of a Server AUTH (authenticator configured), on a
+// live client. Oracle: a code a Server may send is accepted and reported (logger) with exactly that value; a code MQTT 5 does not
+// list for that packet is not acted upon as if it were valid. Listed-but-client-only codes are don't-care.
+void run_c20_insitu(Judge& j) {
+    const FamilyCtx& ctx = j.ctx;
+    uint64_t idx = 0;
+    for (int kind = 0; kind < 3; ++kind)
+        for (int code = 0; code < 256; ++code) {
+            if (int(idx++ % ctx.nshards) != ctx.shard) continue;
+            uint8_t rc = (uint8_t)code;
+            Scenario sc; sc.family = kind == 0 ? "c20-disconnect" : kind == 1 ? "c20-connack" : "c20-auth"; sc.seed = ctx.seed; sc.index = (uint64_t)code;
+            sc.ccfg.keep_alive = 600;
+            Action r; r.kind = Action::run; sc.script.push_back(r);
+            uint8_t ptype = kind == 0 ? ref::DISCONNECT : kind == 1 ? ref::CONNACK : ref::AUTH;
+            bool sendable = ref::rc_sendable(ptype, rc, ref::Dir::from_server), listed = ref::rc_listed(ptype, rc);
+            if (kind == 0) { Action a; a.kind = Action::spurious_ack; a.at = 100 * MS; a.pkt.type = ref::DISCONNECT; a.pkt.rc = rc; sc.script.push_back(a); }
+            else if (kind == 1) { AttemptPlan a; a.hs = AttemptPlan::hs_refuse_rc; a.refuse_rc = rc; if (rc == 0) a.hs = AttemptPlan::hs_normal; sc.attempts.push_back(a); }
+            else {
+                sc.ccfg.use_authenticator = true; sc.ccfg.auth_method = "SIM-AUTH"; sc.broker_auth_rounds = 0;
+                Action a; a.kind = Action::spurious_ack; a.at = 100 * MS; a.pkt.type = ref::AUTH; a.pkt.rc = rc;
+                ref::Prop m; m.id = 0x15; m.s1 = "SIM-AUTH"; a.pkt.props.push_back(m); ref::Prop dt; dt.id = 0x16; dt.s1 = "srv"; a.pkt.props.push_back(dt);
+                sc.script.push_back(a);
+            }
+            sc.end = 3 * SEC;
+            vu::set_case(sc.family + " code=" + std::to_string(code));
+            auto ex = execute(sc);
+            j.res.evaluations++; j.res.count("c20_insitu_cases"); j.res.hash(vu::mix(vu::mix(0xC20, kind), code));
+            const History& h = ex->world->h;
+            char hex[8]; snprintf(hex, sizeof hex, "0x%02x", code);
+            std::string rp = "scenario:\n" + sc.describe() + "\n" + h.dump(200);
+            if (ex->run.out.exception || ex->run.out.hang) { j.res.violation("C20", std::string("C20:in-situ:engine:") + sc.family, std::string("exception / livelock with reason code ") + hex, rp); continue; }
+            if (kind == 0) {
+                int logged = -1; for (auto& e : h.ev) if (e.kind == Ev::log_disconnect) { logged = e.b; break; }
+                if (sendable) { j.res.count("c20_insitu_sendable"); if (logged != code) j.res.violation("C20", "C20:in-situ:disconnect-code-not-reported", std::string("Server DISCONNECT with reason code ") + hex + ": the logger was told " + std::to_string(logged), rp); }
+                else if (!listed && logged == code) j.res.violation("C20", "C20:in-situ:unlisted-disconnect-code-accepted", std::string("Server DISCONNECT with the unlisted reason code ") + hex + " was reported as if it were valid", rp);
+            } else if (kind == 1) {
+                int logged = -1; bool est0 = !h.conns.empty() && h.conns[0].established;
+                for (auto& e : h.ev) if (e.kind == Ev::log_connack && e.a == 0) { logged = e.b; break; }
+                if (sendable) { j.res.count("c20_insitu_sendable"); if (logged != code) j.res.violation("C20", "C20:in-situ:connack-code-not-reported", std::string("CONNACK with reason code ") + hex + ": the logger was told " + std::to_string(logged), rp); }
+                else if (!listed && (logged == code || est0)) j.res.violation("C20", "C20:in-situ:unlisted-connack-code-accepted", std::string("CONNACK with the unlisted reason code ") + hex + " was accepted", rp);
+                if (rc >= 0x80 && est0) j.res.violation("C20", "C20:in-situ:refusing-connack-established", std::string("CONNACK with reason code ") + hex + " established the connection", rp);
+            } else {
+                // a Server AUTH the client acts upon makes it call the authenticator and (for 0x18) answer with AUTH 0x18
+                int answers = 0, malformed = 0;
+                for (auto& k : h.cpkts) if (k.t >= 100 * MS && k.dec.status == ref::Status::ok) { if (k.dec.pkt.type == ref::AUTH) ++answers; if (k.dec.pkt.type == ref::DISCONNECT && (k.dec.pkt.rc == 0x81 || k.dec.pkt.rc == 0x82)) ++malformed; }
+                if (sendable) { j.res.count("c20_insitu_sendable"); if (malformed) j.res.violation("C20", "C20:in-situ:auth-code-rejected", std::string("Server AUTH with reason code ") + hex + " (a Server may send it) was answered with a malformed-packet / protocol-error DISCONNECT", rp); if (rc == 0x18 && !answers) j.res.violation("C20", "C20:in-situ:auth-continue-not-answered", "Server AUTH 0x18 was not answered with AUTH", rp); }
+                else if (!listed && answers) j.res.violation("C20", "C20:in-situ:unlisted-auth-code-accepted", std::string("Server AUTH with the unlisted reason code ") + hex + " was answered as if it were a valid step", rp);
+            }
+        }
+}
+
 }  // namespace
 
 int run_families(const FamilyCtx& ctx, vu::Result& res) {
@@ -1280,6 +1333,8 @@ int run_families(const FamilyCtx& ctx, vu::Result& res) {
         run_c10(j, T ? 30000 : 1200);
         run_c15(j, T ? 2000 : 100);      // DISCONNECTs with every property shape under small Maximum Packet Size limits
         run_idle_sweep(j, T ? 10 : 2, T ? 100 : 40, {1, 5});   // DISCONNECT with reason code and Reason String in many client states
+    } else if (P == "C20") {
+        run_c20_insitu(j);
     } else if (P == "C19") {
         run_c19(j, T ? 60000 : 1000);
     } else if (P == "C13") {
